@@ -2,7 +2,7 @@
    growing only, charged by the quadratic formula; a child frame starts empty and leaves the
    parent's memory and size exactly as they were, except for the return-data window.
    Only statements; proofs in Proofs/MemoryProofs.v. *)
-From RevmV Require Import Base.Word Model.Memory Spec.MemorySpec Proofs.MemoryProofs.
+From RevmV Require Import Base.Word Model.Memory Model.MemoryOps Spec.MemorySpec Proofs.MemoryProofs Proofs.MemoryOpsProofs.
 Local Open Scope Z_scope.
 
 (* invariant of SharedMemory for ALL frame histories (trees of own operations and complete
@@ -77,6 +77,69 @@ Theorem C11_return_window :
     mlen m' = mlen m /\ cps m' = cps m /\ last_cp m' = last_cp m /\
     (v = [] \/ ctx m' = zfirstn out_off (ctx m) ++ v ++ zskipn (out_off + zlen v) (ctx m)).
 Proof. exact outcome_window. Qed.
+
+(* ---- opcode layer (Model/MemoryOps.v: MLOAD MSTORE MSTORE8 MSIZE MCOPY CALLDATACOPY CODECOPY
+   RETURNDATACOPY KECCAK256 LOGn RETURN REVERT STOP CALL as the interpreter runs them) *)
+
+(* EVERY memory instruction, whatever its operands, the gas it has and whether it succeeds or
+   fails: the SharedMemory invariant is kept, no checkpoint and no byte below the frame's
+   checkpoint changes, the frame's memory does not shrink and stays a multiple of 32 bytes, and
+   the gas meter only goes down *)
+Theorem C11_every_instruction_grows_aligned :
+  forall (e : fenv) (m : smem) (g : Z) (o : pop),
+    inv m -> 0 <= mlen m -> mlen m mod 32 = 0 -> 0 <= g -> pop_nonneg o ->
+    let r := exec e m g o in
+    inv (o_mem r) /\ frame_eq m (o_mem r) /\ mlen m <= mlen (o_mem r) /\ mlen (o_mem r) mod 32 = 0 /\
+    0 <= o_gas r <= g.
+Proof.
+  intros e m g o I L0 LA G0 NN. destruct (exec_frame e m g o I L0 LA G0 NN) as (A & B & C & D & E & F).
+  cbn zeta. repeat (split; [assumption|]). exact F.
+Qed.
+
+(* the resize_memory! macro (every instruction goes through it): on success the gas taken is
+   exactly memory_gas(words after) - memory_gas(words before); on MemoryOOG nothing changes *)
+Theorem C11_resize_macro_charge :
+  forall (m m' : smem) (g g' off len r : Z),
+    inv m -> 0 <= mlen m -> mlen m mod 32 = 0 -> 0 <= g ->
+    resize_macro m g off len = Some (m', g', r) ->
+    (r = 0 \/ r = MemoryOOG) /\
+    (r = MemoryOOG -> m' = m /\ g' = g) /\
+    (r = 0 -> g - g' = memory_gas (num_words (mlen m')) - memory_gas (num_words (mlen m))).
+Proof.
+  intros m m' g g' off len r I L0 LA G0 E.
+  destruct (resize_macro_ok m g off len m' g' r I L0 LA G0 E) as (_ & _ & _ & _ & _ & A & B & C). auto.
+Qed.
+
+(* MSTORE end to end: static gas 3 + the quadratic difference *)
+Theorem C11_mstore_charge :
+  forall (e : fenv) (m : smem) (g off v : Z),
+    inv m -> 0 <= mlen m -> mlen m mod 32 = 0 -> 0 <= g ->
+    let r := exec e m g (PMstore off v) in
+    o_res r = R_Continue ->
+    g - o_gas r = 3 + (memory_gas (num_words (mlen (o_mem r))) - memory_gas (num_words (mlen m))).
+Proof. exact mstore_charge. Qed.
+
+(* MCOPY's SharedMemory::copy is a memmove: the source is read as it was before the copy,
+   for all overlaps (EIP-5656) *)
+Theorem C11_mcopy_is_memmove :
+  forall (m : smem) (dst src len : Z),
+    inv m -> 0 <= dst -> 0 <= src -> 0 <= len -> mlen m < pow64 ->
+    src + len <= mlen m -> dst + len <= mlen m ->
+    snd (copy m dst src len) = false /\
+    mlen (fst (copy m dst src len)) = mlen m /\
+    ctx (fst (copy m dst src len)) =
+      zfirstn dst (ctx m) ++ zfirstn len (zskipn src (ctx m)) ++ zskipn (dst + len) (ctx m).
+Proof. exact copy_memmove. Qed.
+
+(* non-vacuity of the opcode layer: an overlapping MCOPY after two stores, 9 gas of expansion *)
+Example C11_example_program :
+  let e := mkEnv [] [] [] in
+  let r1 := exec e (new_context mem_new) 100 (PMstore 0 (2 ^ 256 - 1)) in
+  let r2 := exec e (o_mem r1) (o_gas r1) (PMcopy 16 0 32) in
+  inv (new_context mem_new) /\ o_res r1 = 0 /\ o_res r2 = 0 /\
+  o_gas r1 = 100 - 3 - 3 /\ o_gas r2 = o_gas r1 - 6 - 3 /\
+  ctx (o_mem r2) = repeat 255 48 ++ zeros 16.
+Proof. vm_compute. repeat split; try reflexivity; intros H; discriminate H. Qed.
 
 (* non-vacuity: a nested history; the grand-child writes where the parent later grows *)
 Example C11_example_history :
